@@ -21,5 +21,9 @@ func init() {
 		o.pins("cue/scanner", "Scanner.scanNumber", "Scanner.scanMantissa", "Scanner.scanFieldIdentifier",
 			"Scanner.scanIdentifier", "isLetter", "isDigit", "Scanner.next")
 		o.pins("cue/ast", "IsValidIdent", "isLetter", "isDigit")
+		// extension round (session 3): position table
+		c09TokenGen(o)
+		// … and the scanner as a total function
+		c09ScanGen(o)
 	}
 }
